@@ -66,8 +66,8 @@ impl Lean {
     }
 
     /// END: returns the model-vs-implementation mismatches of this scenario and starts a new one
-    pub fn end(&mut self) -> Vec<String> {
-        writeln!(self.stdin, "END").expect("kmodel pipe");
+    pub fn end(&mut self, props: &str) -> Vec<String> {
+        writeln!(self.stdin, "END {}", props).expect("kmodel pipe");
         self.stdin.flush().unwrap();
         let mut out = Vec::new();
         loop {
